@@ -445,6 +445,24 @@ def apply_model(sym, n, f, vals, mut_idx, st):
                 states = nxt
             return out + [(s0, (VAL, FALSE if last == "any" else NONE)) for s0 in states]
 
+    # ---- `map.extend(opt)` with a known `Option<(K, V)>`: nothing for None, one `insert(k, v)` for Some((k, v)) ----------------------
+    if p == "std::iter::Extend::extend" and len(vals) == 2 and mut_idx == [0] and vals[0][0] == "place" and vals[1][0] == "adt" and vals[1][1] == "Option" \
+            and n.get("args") and re.search(r"(BTreeMap|HashMap)<", (strip_mut(n["args"][0]).get("ty") or "") + (n["args"][0].get("ty") or "")):
+        if vals[1][2] == "None":
+            return V(UNIT)
+        pay = vals[1][3][0][1] if vals[1][3] else None
+        if vals[1][2] == "Some" and pay is not None and pay[0] == "tuple" and len(pay[1]) == 2:
+            kind_ = "BTreeMap" if "BTreeMap<" in ((strip_mut(n["args"][0]).get("ty") or "") + (n["args"][0].get("ty") or "")) else "HashMap"
+            s1 = st.copy()
+            s1.n += 1
+            nm_ = "std::collections::%s::insert" % kind_
+            args_ = (vals[0], pay[1][0], pay[1][1])
+            s1.effects = s1.effects + (("call", nm_, args_, s1.n),)
+            pl = sym.place_of(n["args"][0], s1)
+            if pl is not None:
+                s1 = sym.write_place(s1, pl, ("after", ("mcall", nm_, args_, s1.n), 0))
+            return [(s1, (VAL, UNIT))]
+
     # ---- `[a, b].into_iter().fold(init, f)` is f(f(init, a), b) -----------------------------------------------------------------------
     if p == "std::iter::Iterator::fold" and len(vals) == 3 and vals[2][0] in ("closure", "fnref"):
         src = vals[0]
